@@ -111,7 +111,8 @@ def nextLine (bs : Bytes) : Option (Bytes × Bytes) := nextLineAux [] bs
 
 inductive FileOutcome where
   | eof
-  | err (r : SearchRes)
+  | errCorrupt
+  | errMeta
   | earlier
   | later
   | found (rest : Bytes)
@@ -126,8 +127,8 @@ def scanFile (cfg : Cfg) (ignore keep : Bool) (height : Int) : Nat → Bytes →
     | some (line, rest) =>
       match readLine cfg line with
       | .metaEof => .eof
-      | .corrupt => if ignore then scanFile cfg ignore keep height fuel rest else .err .errCorrupt
-      | .metaErr => .err .errMeta
+      | .corrupt => if ignore then scanFile cfg ignore keep height fuel rest else .errCorrupt
+      | .metaErr => .errMeta
       | .msg _ => scanFile cfg ignore keep height fuel rest
       | .mark m =>
         if height < m then .earlier
@@ -159,11 +160,12 @@ def searchLoop (cfg : Cfg) (g : Group) (ignore : Bool) (height : Int) : Nat → 
         let file := g.file index.toNat
         match scanFile cfg ignore (s.backoff == 0) height (file.length + 1) file with
         | .eof => searchLoop cfg g ignore height fuel { s with idxoff := s.idxoff + 1 }
-        | .err r => r
+        | .errCorrupt => .errCorrupt
+        | .errMeta => .errMeta
         | .found rest => .found rest
         | .earlier =>
-          let (maxVal, backoff) :=
-            if s.backoff == 0 then (s.maxVal - 1, (-1 : Int)) else (s.maxVal + s.backoff, s.backoff * 2)
+          let maxVal := if s.backoff == 0 then s.maxVal - 1 else s.maxVal + s.backoff
+          let backoff := if s.backoff == 0 then (-1 : Int) else s.backoff * 2
           if maxVal + backoff * 2 ≤ s.minVal then
             searchLoop cfg g ignore height fuel { s with idxoff := 0, maxVal, backoff := 0, mode := .binary }
           else
@@ -179,7 +181,8 @@ def searchLoop (cfg : Cfg) (g : Group) (ignore : Bool) (height : Int) : Nat → 
         let file := g.file index.toNat
         match scanFile cfg ignore (¬ (index < s.maxVal)) height (file.length + 1) file with
         | .eof => searchLoop cfg g ignore height fuel { s with idxoff := s.idxoff + 1 }
-        | .err r => r
+        | .errCorrupt => .errCorrupt
+        | .errMeta => .errMeta
         | .found rest => .found rest
         | .earlier => searchLoop cfg g ignore height fuel { s with idxoff := 0, maxVal := mid - 1 }
         | .later => searchLoop cfg g ignore height fuel { s with idxoff := 0, minVal := index }
